@@ -143,6 +143,7 @@ SIGNATURES = {
     "C15a-runs-while-scanned": "exit_race",
     "C17-interrupt-overwritten": "irq_clobbered",
     "C15-unregistered-thread-runs-during-stop": "late_register",
+    "C15-access-to-thread-registered-during-stop": "late_register",
 }
 
 
